@@ -4,6 +4,7 @@
 use vstd::prelude::*;
 use vstd::std_specs::cmp::*;
 use vstd::utf8::*;
+use vstd::std_specs::iter::IteratorSpec;
 use vstd::string::StringSliceAdditionalSpecFns;
 use std::ffi::OsString;
 use std::ops::Range;
@@ -916,6 +917,56 @@ pub mod spec {
             }
         }
     }
+
+    // ---- roff escaping (src/buffer/manpage/escape.rs; C16)
+    /// bytes of the apostrophe replacement `\*(Aq`
+    pub open spec fn apos() -> Seq<u8> { seq![92u8, 42u8, 40u8, 65u8, 113u8] }
+    /// what one byte of a fragment turns into (the table in the doc comments of `Escape`): request arguments (`Spaces`) get
+    /// space / newline / backslash escaped; text (`Special*`) gets `\&` in front of `.` and `'` at a line start, a backslash in front
+    /// of `\` and `-`, the apostrophe replaced, and (NoNewline) a newline turned into a space; `Unescaped*` is bpaf's own roff
+    pub open spec fn esc_byte(meta: Escape, ap: Apostrophes, c: u8, at_start: bool) -> Seq<u8> {
+        match meta {
+            Escape::Spaces => if c == 32 || c == 10 { seq![92u8, 32u8] } else if c == 92 { seq![92u8, 92u8] } else { seq![c] },
+            Escape::Special | Escape::SpecialNoNewline =>
+                (if at_start && (c == 46 || c == 39) { seq![92u8, 38u8] } else { Seq::<u8>::empty() })
+                + (if c == 92 || c == 45 { seq![92u8] } else { Seq::<u8>::empty() })
+                + (if ap == Apostrophes::Handle && c == 39 { apos() } else if meta == Escape::SpecialNoNewline && c == 10 { seq![32u8] } else { seq![c] }),
+            Escape::Unescaped | Escape::UnescapedAtNewline => seq![c],
+        }
+    }
+    /// "the next byte starts a line" after byte c
+    pub open spec fn esc_flag(meta: Escape, ap: Apostrophes, c: u8) -> bool {
+        if (meta == Escape::SpecialNoNewline) && c == 10 && !(ap == Apostrophes::Handle && c == 39) { false } else { c == 10 }
+    }
+    /// escaping of the first n bytes of a fragment: (output, at_line_start afterwards)
+    pub open spec fn esc_frag(meta: Escape, ap: Apostrophes, bs: Seq<u8>, n: int, at_start: bool) -> (Seq<u8>, bool)
+        decreases n,
+    {
+        if n <= 0 { (Seq::<u8>::empty(), at_start) } else {
+            let (o, a) = esc_frag(meta, ap, bs, n - 1, at_start);
+            (o + esc_byte(meta, ap, bs[n - 1], a), esc_flag(meta, ap, bs[n - 1]))
+        }
+    }
+    pub open spec fn frag_out(meta: Escape, ap: Apostrophes, bs: Seq<u8>, at_start: bool) -> (Seq<u8>, bool) {
+        let a0 = if !at_start && meta == Escape::UnescapedAtNewline { true } else { at_start };
+        let pre = if !at_start && meta == Escape::UnescapedAtNewline { seq![10u8] } else { Seq::<u8>::empty() };
+        let (o, a) = esc_frag(meta, ap, bs, bs.len() as int, a0);
+        (pre + o, a)
+    }
+    /// escaping of the first n fragments, starting at a line start
+    pub open spec fn esc_all(frags: Seq<(Escape, Seq<u8>)>, ap: Apostrophes, n: int) -> (Seq<u8>, bool)
+        decreases n,
+    {
+        if n <= 0 { (Seq::<u8>::empty(), true) } else {
+            let (o, a) = esc_all(frags, ap, n - 1);
+            let (o2, a2) = frag_out(frags[n - 1].0, ap, frags[n - 1].1, a);
+            (o + o2, a2)
+        }
+    }
+    /// `.` and `'` open a roff request when they start a line
+    pub open spec fn ctl(b: u8) -> bool { b == 46 || b == 39 }
+    /// fragments that carry user text of the page body
+    pub open spec fn body_meta(m: Escape) -> bool { m == Escape::Special || m == Escape::SpecialNoNewline }
 }
 
 pub mod lemmas {
@@ -1131,6 +1182,40 @@ pub mod lemmas {
         axiom_hity_eq,
         lemma_strip_push,
     }
+
+    /// A-derive-eq: `#[derive(PartialEq, Eq)]` on Escape / Apostrophes (fieldless enums) is structural equality (T6)
+    #[verifier::external_body]
+    pub broadcast proof fn axiom_escape_eq(a: Escape, b: Escape)
+        ensures <Escape as PartialEqSpec>::obeys_eq_spec(), #[trigger] a.eq_spec(&b) == (a == b),
+    {}
+    #[verifier::external_body]
+    pub broadcast proof fn axiom_apostrophes_eq(a: Apostrophes, b: Apostrophes)
+        ensures <Apostrophes as PartialEqSpec>::obeys_eq_spec(), #[trigger] a.eq_spec(&b) == (a == b),
+    {}
+
+//@@ lemma
+//@@ unit lemmas.roff_escape_helpers tags=C16 cfg=docgen
+    /// the UTF-8 bytes of the constant APOSTROPHE
+    #[cfg(feature = "docgen")]
+    pub proof fn lemma_apostrophe_bytes()
+        ensures APOSTROPHE.spec_bytes() == apos(),
+    {
+        reveal_strlit("\\*(Aq");
+        let cs = APOSTROPHE@;
+        assert(cs =~= seq!['\\', '*', '(', 'A', 'q']);
+        is_ascii_chars_encode_utf8(cs);
+        assert(APOSTROPHE.spec_bytes() =~= apos());
+    }
+
+    #[cfg(feature = "docgen")]
+    pub proof fn lemma_esc_all_prefix(frags: Seq<(Escape, Seq<u8>)>, x: (Escape, Seq<u8>), ap: Apostrophes, k: int)
+        requires 0 <= k <= frags.len(),
+        ensures esc_all(frags.push(x), ap, k) == esc_all(frags, ap, k),
+        decreases k,
+    {
+        if k > 0 { lemma_esc_all_prefix(frags, x, ap, k - 1); }
+    }
+//@@ end
 
 //@@ lemma
 //@@ unit lemmas.utf8_offsets tags=C02,C04,C05
@@ -2819,6 +2904,72 @@ proof {
     assert(hi.items@.subrange(0, hi.items@.len() as int) =~= hi.items@);
     lemma_levels_seq_strip(hi.items@, path_text(old(path)@));
     lemma_levels_leaves(meta, path_text(old(path)@));
+}
+//@@ end
+
+// ---- roff escaping (C16): the real byte loop against the escaping table
+//@@ type src/buffer/manpage/escape.rs | enum Apostrophes
+//@@ unit escape.Apostrophes tags= derive_copy derive_eq
+//@@ end
+
+//@@ type src/buffer/manpage/escape.rs | const APOSTROPHE
+//@@ unit escape.APOSTROPHE tags=
+//@@ subst `&str` => `&'static str`
+//@@ end
+
+//@@ type src/buffer/manpage/escape.rs | enum Escape
+//@@ unit escape.Escape tags= derive_copy derive_eq
+//@@ end
+
+//@@ fn src/buffer/manpage/escape.rs | fn escape
+//@@ unit escape.escape tags=C16,C04 loops=2 desugar_for_into=1 desugar_for_into=2 byte_lits cfg=docgen
+//@@ attr
+#[verifier::exec_allows_no_decreases_clause]
+//@@ spec
+    ensures
+        exists|frags: Seq<(Escape, Seq<u8>)>| final(out)@ == old(out)@ + #[trigger] esc_all(frags, ap, frags.len() as int).0, // #output_is_the_escaping_table_applied_fragment_by_fragment
+//@@ preloop 1
+proof { lemma_apostrophe_bytes(); }
+let ghost mut done: Seq<(Escape, Seq<u8>)> = Seq::empty();
+//@@ loop 1
+        invariant
+            APOSTROPHE.spec_bytes() == apos(),
+            out@ == old(out)@ + esc_all(done, ap, done.len() as int).0,
+            at_line_start == esc_all(done, ap, done.len() as int).1,
+//@@ loopbody 1
+proof { axiom_escape_eq(meta, Escape::SpecialNoNewline); axiom_escape_eq(meta, Escape::UnescapedAtNewline); axiom_apostrophes_eq(ap, Apostrophes::Handle); }
+let ghost out_f = out@; let ghost a_f = at_line_start;
+//@@ preloop 2
+let ghost out0 = out@; let ghost a0 = at_line_start; let ghost bs = payload.spec_bytes();
+//@@ loop 2
+            invariant
+                APOSTROPHE.spec_bytes() == apos(),
+                <Escape as PartialEqSpec>::obeys_eq_spec(), <Apostrophes as PartialEqSpec>::obeys_eq_spec(),
+                verif_it_2.obeys_prophetic_iter_laws(), verif_it_2.decrease() is Some,
+                verif_all_2.len() == bs.len(), forall|i: int| 0 <= i < verif_all_2.len() ==> *#[trigger] verif_all_2[i] == bs[i],
+                verif_it_2.remaining().len() <= verif_all_2.len(),
+                verif_it_2.remaining() == verif_all_2.skip(verif_all_2.len() - verif_it_2.remaining().len()),
+                out@ == out0 + esc_frag(meta, ap, bs, verif_all_2.len() - verif_it_2.remaining().len(), a0).0,
+                at_line_start == esc_frag(meta, ap, bs, verif_all_2.len() - verif_it_2.remaining().len(), a0).1,
+            ensures verif_it_2.remaining().len() == 0,
+            decreases verif_it_2.decrease()->Some_0,
+//@@ loopbody 2
+let ghost k = verif_all_2.len() - verif_it_2.remaining().len(); let ghost a_k = at_line_start; let ghost out_k = out@;
+proof { axiom_escape_eq(meta, Escape::SpecialNoNewline); axiom_apostrophes_eq(ap, Apostrophes::Handle); assert(bs[k - 1] == c); assert(a_k == esc_frag(meta, ap, bs, k - 1, a0).1); }
+//@@ insert before 1 `continue;`
+proof { assert(out@ =~= out_k + esc_byte(meta, ap, c, a_k)); } // #each_byte_written_as_the_escaping_table_says
+//@@ insert before 1 `at_line_start = c ==`
+proof { assert(out@ =~= out_k + esc_byte(meta, ap, c, a_k)); } // #each_byte_written_as_the_escaping_table_says
+
+//@@ postloop 2
+proof {
+    lemma_esc_all_prefix(done, (meta, bs), ap, done.len() as int);
+    let d2 = done.push((meta, bs));
+    assert(d2[d2.len() - 1] == (meta, bs));
+    assert(frag_out(meta, ap, bs, a_f).0 =~= out@.skip(out_f.len() as int));
+    assert(frag_out(meta, ap, bs, a_f).1 == at_line_start);
+    assert(out@ =~= out_f + out@.skip(out_f.len() as int));
+    done = d2;
 }
 //@@ end
 
